@@ -144,6 +144,36 @@ pub fn generate(thorough: bool, seed: u64, em: &mut Emitter) {
             "tag": if reserved { json!("reserved_name_in_claims") } else if marks.is_empty() { json!("nothing_disclosable") } else { Value::Null },
         }));
     }
+    // large documents (not the 10000-element array: the independent verifier's model is quadratic in it)
+    for v in 0..(if thorough { 48 } else { 12 }) {
+        let mut rc = r.fork();
+        let variant = [0usize, 1, 2, 3, 5, 7, 8, 4][v % 8];
+        let (claims, marks) = gen::large_claims_and_marking(&mut rc, variant);
+        let k = marks.len();
+        let mut subsets: Vec<Vec<bool>> = vec![vec![true; k], vec![false; k]];
+        for _ in 0..2 {
+            subsets.push((0..k).map(|_| rc.chance(1, 2)).collect());
+        }
+        em.case("conform", json!({
+            "claims": claims, "paths": marks.iter().map(gen::render).collect::<Vec<_>>(),
+            "marks": marks.iter().map(gen::tpath_json).collect::<Vec<_>>(),
+            "decoy": if v % 3 == 0 { json!(200 + rc.below(300)) } else { Value::Null }, "cnf": v % 4 == 1,
+            "expect_claims": if v % 4 == 1 {
+                let mut e = claims.clone();
+                let j = Jwk::from_value(crate::keys::rsa_jwk()).ok().map(|j| serde_json::to_value(&*j).unwrap()).unwrap_or(Value::Null);
+                e.as_object_mut().unwrap().insert("cnf".to_string(), j);
+                e
+            } else { claims.clone() },
+            "subsets": subsets, "nontrivial": true, "reserved_input": false, "own_cnf": false, "calls": 1, "first_fails": false,
+            "tag": "large_document",
+        }));
+    }
+    // Disclosure::build on long values: a portrait, a certificate chain
+    for i in 0..(if thorough { 120 } else { 24 }) {
+        let len = [1000usize, 1024, 3000, 3100, 4096, 5000, 8192, 20_000][i % 8] + r.below(40);
+        let value = if i % 3 == 2 { json!([gen::long_text(&mut r, len / 2), {"chain": gen::long_text(&mut r, len / 2)}]) } else { json!(gen::long_text(&mut r, len)) };
+        em.case("discbuild", json!({"key": if i % 2 == 0 { json!("portrait") } else { json!(null) }, "value": value, "salt_len": 16 + r.below(17), "alg": indep::ALGS[i % 3], "reserved": false}));
+    }
     // Disclosure::build over names, values, salt lengths, algorithms
     let names: Vec<Value> = vec![json!(null), json!("name"), json!(""), json!("é~/ü"), json!("x\"y\\"), json!("0"), json!("_sd"), json!("..."), json!("_sd_alg")];
     let m = if thorough { 20_000 } else { 1_200 };
